@@ -1,7 +1,7 @@
 (* C18 -- property theorems only: pinned statements, each closed by `exact`.
    Model: coq/C18/Codec.v (enc = serialize_with_mode, size = serialized_size,
    dec = deserialize_with_mode, check = Valid::check; c = Compress::Yes, vl = Validate::Yes). *)
-From V Require Import Base.Word C18.Codec C18.CodecProofs C18.CodecLaws C18.Utf8Proofs.
+From V Require Import Base.Word C18.Codec C18.CodecProofs C18.CodecLaws C18.Utf8Proofs C18.Validate.
 
 (* Compositional round trip: for every type descriptor (any nesting depth, any sizes) whose
    length-prefixed containers have no zero-sized elements, every well-typed valid value, both
@@ -71,6 +71,36 @@ Theorem C18_derive_is_field_sequence : forall t c x, wt t x ->
   check (TStruct t) x = forallb (fun f => check (fst f) (snd f)) (leaves t x).
 Proof. exact derive_fields. Qed.
 
+(* ---- validation: what Validate::Yes adds to Validate::No ----
+   [valid t v] (= [check t v], Valid::check) is structural: a container / derived struct is valid iff all its
+   components are; the leaves TEven / TLeaf carry the non-trivial predicates.
+   [checked t]: no *Unchecked wrapper (which pins Validate::No) around a type that has invalid values.
+   [exact_ty t]: [checked t], and BTreeMap / BTreeSet hold trivially valid entries only (collect() drops an entry
+   whose key is repeated later, so "the decoded map is valid" is weaker than "every decoded entry was valid"). *)
+(* for every type built from the modelled constructors: a value returned under Validate::Yes is valid ... *)
+Theorem C18_decode_validates : forall t, checked t = true -> forall c bs v r,
+  dec c true t bs = Ok (v, r) -> valid t v = true.
+Proof. exact dec_yes_valid. Qed.
+(* ... and what Validate::No accepts, Validate::Yes accepts iff it is valid, rejecting with InvalidData otherwise *)
+Theorem C18_decode_validates_exact : forall t, exact_ty t = true -> forall c bs v r,
+  dec c false t bs = Ok (v, r) ->
+  dec c true t bs = if valid t v then Ok (v, r) else Err EINVALID.
+Proof. exact dec_no_yes_exact. Qed.
+(* for ALL types (also maps / sets of validity-bearing entries, Unchecked wrappers): Validate::Yes is a restriction
+   of Validate::No (same value, same bytes consumed) whose only additional outcome is InvalidData *)
+Theorem C18_validate_yes_restricts_no : forall t c bs v r,
+  dec c true t bs = Ok (v, r) -> dec c false t bs = Ok (v, r).
+Proof. exact dec_yes_no. Qed.
+Theorem C18_validate_only_rejects : forall t c bs v r, dec c false t bs = Ok (v, r) ->
+  dec c true t bs = Ok (v, r) \/ dec c true t bs = Err EINVALID.
+Proof. exact dec_no_yes_weak. Qed.
+(* the instance seeded change 6 broke: Vec<Vec<S>> with one invalid leaf anywhere is rejected under Validate::Yes *)
+Theorem C18_nested_seq_invalid_leaf : forall t c bs l r, exact_ty t = true ->
+  dec c false (TSeq (TSeq t)) bs = Ok (VList l, r) ->
+  existsb (fun inner => match inner with VList xs => existsb (fun x => negb (valid t x)) xs | _ => false end) l = true ->
+  dec c true (TSeq (TSeq t)) bs = Err EINVALID.
+Proof. exact nested_seq_invalid_leaf. Qed.
+
 (* ordered maps / sets: entries in strictly increasing key order round-trip *)
 Theorem C18_btreemap_roundtrip : forall k v, ty_ok (TMap k v) = true -> forall c vl l rest,
   Forall (fun e => match e with VPair a b => wt k a /\ wt v b | _ => False end) l ->
@@ -120,3 +150,21 @@ Proof. vm_compute. repeat split; reflexivity. Qed.
 (* oversized length prefix 2^64-1 on a Vec<u32> with 4 bytes of payload: an error, not a panic *)
 Example C18_ex_prefix : dec true true (TSeq (TUInt 4)) ([255;255;255;255;255;255;255;255] ++ [1;0;0;0]) = Err EIO.
 Proof. vm_compute. reflexivity. Qed.
+(* validation. S = struct VT(Lt200, Even32) = TStruct (TLeaf 1 1 * (TLeaf 4 0 * 1)); Vec<Vec<S>> = [[ (7, 10) ], [ (5, 2), (250, 4) ]]:
+   the last leaf pair has 250 >= 200 *)
+Definition ex_S : ty := TStruct (TPair (TLeaf 1 1) (TPair (TLeaf 4 0) TUnit)).
+Definition ex_vv : list Z := [2;0;0;0;0;0;0;0;  1;0;0;0;0;0;0;0; 7; 10;0;0;0;  2;0;0;0;0;0;0;0; 5; 2;0;0;0; 250; 4;0;0;0].
+Example C18_ex_exact_ty : exact_ty (TSeq (TSeq ex_S)) = true /\ checked (TMap (TUInt 1) ex_S) = true /\
+                          exact_ty (TMap (TUInt 1) ex_S) = false /\ checked (TWrap true false ex_S) = false.
+Proof. vm_compute. repeat split; reflexivity. Qed.
+Example C18_ex_nested_invalid :
+  dec true true (TSeq (TSeq ex_S)) ex_vv = Err EINVALID /\
+  match dec true false (TSeq (TSeq ex_S)) ex_vv with Ok (v, []) => valid (TSeq (TSeq ex_S)) v | _ => true end = false.
+Proof. vm_compute. split; reflexivity. Qed.
+(* why maps are excluded from the exact statement: {1: (250,4)} overwritten by {1: (5,2)} is a valid map under
+   Validate::No, while Validate::Yes rejects the first entry *)
+Definition ex_dup : list Z := [2;0;0;0;0;0;0;0; 1; 250; 4;0;0;0; 1; 5; 2;0;0;0].
+Example C18_ex_map_dup :
+  dec true true (TMap (TUInt 1) ex_S) ex_dup = Err EINVALID /\
+  match dec true false (TMap (TUInt 1) ex_S) ex_dup with Ok (v, []) => negb (valid (TMap (TUInt 1) ex_S) v) | _ => true end = false.
+Proof. vm_compute. split; reflexivity. Qed.
